@@ -13,7 +13,7 @@ import sympy
 
 from ..simkit import gen, refmodel
 from ..simkit.backends import BackendFault, classes
-from ..simkit.core import call, judge
+from ..simkit.core import call, judge, clear_library_caches
 from ..simkit.simfs import Seams, SimFS
 from ..simkit.simrng import POLICIES, SimRNG
 
@@ -23,6 +23,7 @@ KINDS = ["measurable", "const", "const-sum", "zero-shot", "zero-shot-const", "em
 
 class World:
     PID = PID
+    WATCHDOG_S = 120  # a run of this world takes well under a second; beyond this it is a hang
     TIERS = {
         "quick": {"runs": 3000, "budget_s": 50, "determinism_seeds": 8, "chunk": 30},
         "thorough": {"runs": 150000, "budget_s": 900, "determinism_seeds": 150, "chunk": 150},
@@ -123,8 +124,7 @@ class World:
 
         ShotBackend, _, TaggedRunner = classes()
         cfg = plan["config"]
-        umod.bitstring_to_tuple.cache_clear()
-        umod.tuple_to_bitstring.cache_clear()
+        clear_library_caches()
         fs = SimFS(cfg.get("fs_buffer", 4096))
         seams = Seams(fs).install()
         rng = SimRNG(cfg["rng_mode"], cfg["rng_policy"], ctx.probes).install()
